@@ -79,6 +79,14 @@ def hostile_corpus():
         'equ fan-out 14': '\n'.join(['.equ a%d = a%d + a%d' % (i, i + 1, i + 1) for i in range(14)] + ['.equ a14 = 1', ' .dw a0']),
         'symbol cycle': '.equ a = b\n.equ b = a\n ldi r16, a',
         'symbol cycle through function': '.equ a = low(a)\n ldi r16, a',
+        # a definition cycle through every kind of expression node (the depth guard must be handed down through each)
+        'symbol cycle through unary minus': '.equ a = -a\n ldi r16, a',
+        'symbol cycle through ~ and +': '.equ a = ~b\n.equ b = a + 1\n .dw a',
+        'symbol cycle through ! in .if': '.equ ready = !ready\n.if ready\n nop\n.endif',
+        'symbol cycle through unary in .org': '.equ base = -base\n.org base\n nop',
+        'symbol cycle through a right operand': '.equ a = 1 - (2 * a)\n ldi r16, a',
+        'symbol cycle through function argument expression': '.equ a = high(b << 1)\n.equ b = low(-a)\n .db a',
+        'symbol cycle through .set of an .equ': '.equ a = -c\n.equ c = ~a\n.set v = a\n ldi r16, v',
         'symbol chain 200': '\n'.join(['.equ s0 = 1'] + ['.equ s%d = s%d + 1' % (i, i - 1) for i in range(1, 200)] + [' .dw s199']),
         'set self reference': '.set v = v + 1\n .dw v',
         'unbalanced endif': '.endif\n nop',
